@@ -160,7 +160,7 @@ class Resolver:
     def place(self, pl, at=None, depth=0, stack=()):
         e = self.local(pl["l"], at, depth, stack)
         for p in pl["p"]:
-            e = self._project(e, p, depth, stack)
+            e = self._project(e, p, depth, stack, at)
         return e
 
     def local(self, l, at=None, depth=0, stack=()):
@@ -228,7 +228,7 @@ class Resolver:
         return ("unk", rv.get("d", "rvalue")[:40])
 
     # -- helpers ------------------------------------------------------------------------------
-    def _project(self, e, p, depth, stack):
+    def _project(self, e, p, depth, stack, at=None):
         k = p["k"]
         if k == "deref":
             if e[0] == "ref":
@@ -245,7 +245,11 @@ class Resolver:
             return ("field", e, name)
         if k == "downcast":
             return ("downcast", e, p["variant"])
-        if k in ("index", "cindex", "subslice"):
+        if k == "index":
+            return ("index", e, self.local(p["l"], at, depth + 1, stack))
+        if k == "cindex":
+            return ("index", e, ("const", p["offset"]))
+        if k == "subslice":
             return ("index", e)
         return ("unk", "proj")
 
@@ -379,7 +383,7 @@ def show(e, depth=0):
     if k == "ref":
         return "&%s" % show(e[1], depth + 1)
     if k == "index":
-        return "%s[..]" % show(e[1], depth + 1)
+        return "%s[%s]" % (show(e[1], depth + 1), show(e[2], depth + 1) if len(e) > 2 else "..")
     if k == "downcast":
         return "(%s as %s)" % (show(e[1], depth + 1), e[2])
     if k == "call":
